@@ -25,8 +25,10 @@ RULE = ("SVC: every schedule (tuple of 1+epochs permutations) enumerated by TLC 
         "random two-class integer data (n 4..40 quick / 4..80 thorough, 1..5 features, separable / overlapping / "
         "duplicated rows of both classes, C in 1/8..100, epochs 1..4, tol 2^-7..2^-13, 4 kernels) with injected "
         "random schedules and every 25th fit left to the unseeded RNG.  SVR: seeded random regression sets "
-        "(n 4..30 / 4..60, eps in {0, 0.1, 1/8, 1/4, 1/2}).  Kernels: exhaustive pairs over {-2..2}^2 for 9 kernel "
-        "settings, random vectors, Gram matrices n<=5/6.  A fit is non-trivial when some coefficient is at a bound "
+        "(n 4..30 / 4..60, eps in {0, 0.1, 1/8, 1/4, 1/2}).  Kernels: exhaustive pairs over {-2..2}^2 for 15 kernel "
+        "settings (polynomial degrees 1, 2, 3 and the fractional 1/2, 3/2, 5/2, 1/4, 3/4, 5/4), random vectors, Gram "
+        "matrices n<=5/6; every 12th SVC and every 16th SVR fit uses a fractional-degree polynomial kernel on "
+        "non-negative features.  A fit is non-trivial when some coefficient is at a bound "
         "(|w| >= C - 2^-15) and another strictly inside (2^-15 < |w| < C - 2^-15); distinct = distinct `in` "
         "objects (data, labels, C, kernel, epochs, tol, schedule) among the non-trivial fits")
 
@@ -57,10 +59,12 @@ def key_of(e, clause):
             feats.append("src=%s" % e.get("src"))
         if e.get("status") != "ok":
             feats.append("status=%s" % e.get("status"))
+        if kn == "poly" and k.get("dd", 1) != 1:
+            kn = "poly(fractional degree)"
         return "%s %s kernel=%s%s" % (e["ev"], clause, kn, (" " + ",".join(feats)) if feats else "")
     if kn == "poly":
-        return "%s %s kernel=poly deg=%s gamma=%s/%s coef0=%s/%s" % (e["ev"], clause, k.get("deg"), k.get("gn"),
-                                                                      k.get("gd"), k.get("cn"), k.get("cd"))
+        return "%s %s kernel=poly deg=%s/%s gamma=%s/%s coef0=%s/%s" % (e["ev"], clause, k.get("deg"), k.get("dd", 1),
+                                                                         k.get("gn"), k.get("gd"), k.get("cn"), k.get("cd"))
     return "%s %s kernel=%s" % (e["ev"], clause, kn)
 
 
@@ -113,6 +117,7 @@ MUST_HIT = ("SvcFit", "SvcSched", "SvcRand", "SvcUnseeded", "Svc_linear", "Svc_r
             "SvrFit", "Svr_linear", "Svr_rbf", "Svr_poly", "SvrKKT", "SvrZeroWeight", "SvrFree", "SvrAtC",
             "SvrBoundAndInside", "SvrDupRows", "SvrExpansion",
             "K_linear", "K_rbf", "K_poly", "K_sigmoid", "RbfTaylor", "SigTaylor",
+            "KRoot2", "KRoot4", "KRootUndefined", "FitRootClosed",
             "Gram_linear", "Gram_rbf", "Gram_sigmoid", "RbfFunctional", "SigAddition", "GramSingular")
 
 
@@ -192,6 +197,7 @@ def run(ctx):
     ctx.extra["not_covered"] = [
         "closed-form VALUES of RBF / sigmoid beyond 2^-9..2^-14 (pinned by range, exact order, functional "
         "equations and Taylor enclosures only)",
+        "fractional polynomial degrees other than multiples of 1/4; fractional powers of negative bases (NaN: statement silent)",
         "positive semi-definiteness as such (necessary conditions: diagonal, 2x2 minors, v'Kv for v in {-1,0,1}^n, n<=6)",
         "kernel-expansion identity finer than ~ sum|K|/2 * 2^-10 (32-bit products)",
         "schedules of training sets with more than 5 rows are sampled (seeded), not enumerated",
